@@ -60,9 +60,15 @@ CASE_TIMEOUT = 30
 
 
 # --------------------------------------------------------------------------- the trace= argument
-def py_trace(a, alias=False):
+def py_trace(a, alias=0):
+    """alias = number of variables that have an alias A<i> (AliasMixin stacked under the tracer; 0 = none): those are named by
+    their alias, every other variable (e.g. one added later by add_variable) and unknown names by V<i>."""
     k = a[0]
-    nm = 'A%d' if alias else 'V%d'                  # alias names (AliasMixin stacked under the tracer) or the variables' own
+
+    class _N:
+        def __mod__(self, i):
+            return ('A%d' if i < alias else 'V%d') % i
+    nm = _N()
     if k == 'none':
         return None
     if k == 'flag':
@@ -186,7 +192,7 @@ def impl(case):
         a = call.get('trace', ['omit'])
         spec = None
         if a[0] != 'omit':
-            spec = tkw['trace'] = py_trace(a, alias=bool(case.get('aliases')))
+            spec = tkw['trace'] = py_trace(a, alias=case['nvars'] if case.get('aliases') else 0)
             specs.append(spec)
         if call.get('reset') is not None:
             tkw['reset'] = bool(call['reset'])
